@@ -712,7 +712,7 @@ func genC05(c *hlib.Ctx) {
 		c.Count("series:" + strings.Fields(ans)[0])
 	}
 	// end to end on real TSDB stores (oracle only)
-	ne := c.N(80, 1500)
+	ne := c.N(80, 800)
 	for i := 0; i < ne; i++ {
 		ans := c.Do(genPruneE2E(c), true)
 		if strings.HasPrefix(ans, "err") {
